@@ -52,6 +52,12 @@ pub assume_specification[ i16::checked_neg ](x: i16) -> (r: Option<i16>)
         r == (if x == i16::MIN { None::<i16> } else { Some((-x) as i16) }),
 ;
 
+/// std: "the number of elements the vector can hold without reallocating", never below `len()`
+pub assume_specification<T, A: core::alloc::Allocator>[ Vec::<T, A>::capacity ](v: &Vec<T, A>) -> (r: usize)
+    ensures
+        r >= v@.len(),
+;
+
 /// `NonZeroUsize` is a plain wrapper around its value (extensionality).
 #[verifier::external_body]
 pub proof fn axiom_nonzero_ext(a: NonZeroUsize, b: NonZeroUsize)
@@ -3235,5 +3241,373 @@ pub proof fn lemma_rs_done<T>(s1: Seq<Node<T>>, now: Seq<Node<T>>, w: Ranks, x: 
     assert forall|i: int| 0 <= i < s1.len() && !anc(s1, x, i) implies same_links(#[trigger] now[i], s1[i]) && now[i].stamp == s1[i].stamp && (
     !s1[i].stamp.removed() ==> now[i].data == s1[i].data) by {}
     assert forall|i: int| 0 <= i < s1.len() && anc(s1, x, i) implies (#[trigger] now[i]).stamp.0 == -s1[i].stamp.0 - 1 by {}
+}
+
+// ---- the depth-first tour (C09: balanced Start/End sequence confined to the subtree) ------------
+/// tour of the subtree of n: Start(n), the tours of its children in order, End(n)
+pub open spec fn tour_node<T>(s: Seq<Node<T>>, w: Ranks, n: NodeId) -> Seq<NodeEdge>
+    decreases w.bound - (w.depth)(n.idx()), 1int, 0int,
+{
+    let i = n.idx();
+    if 0 <= i < s.len() && (w.depth)(i) <= w.bound {
+        seq![NodeEdge::Start(n)] + tour_list(s, w, s[i].first_child, n) + seq![NodeEdge::End(n)]
+    } else {
+        seq![NodeEdge::Start(n), NodeEdge::End(n)]
+    }
+}
+
+/// tours of the sibling c and of all its later siblings (children of p)
+pub open spec fn tour_list<T>(s: Seq<Node<T>>, w: Ranks, c: Option<NodeId>, p: NodeId) -> Seq<NodeEdge>
+    decreases w.bound - (w.depth)(p.idx()), 0int, (if c is Some { (w.rem)(c->0.idx()) + 1 } else { 0 }),
+{
+    if c is Some && 0 <= c->0.idx() < s.len() && (w.depth)(c->0.idx()) > (w.depth)(p.idx()) && (w.depth)(c->0.idx()) <= w.bound {
+        let ci = c->0.idx();
+        let nx = s[ci].next_sibling;
+        tour_node(s, w, c->0) + (if nx is Some && (w.rem)(nx->0.idx()) < (w.rem)(ci) {
+            tour_list(s, w, nx, p)
+        } else {
+            Seq::empty()
+        })
+    } else {
+        Seq::empty()
+    }
+}
+
+/// a sequence of edges in which each edge is followed by its documented depth-first successor
+pub open spec fn steps_ok<T>(s: Seq<Node<T>>, e: Seq<NodeEdge>) -> bool {
+    forall|k: int| 0 <= k < e.len() - 1 ==> next_edge(s, #[trigger] e[k]) == Some(e[k + 1])
+}
+
+pub open spec fn all_below<T>(s: Seq<Node<T>>, w: Ranks, e: Seq<NodeEdge>, d: nat) -> bool {
+    forall|k: int| 0 <= k < e.len() ==> tgt_ok(s, Some(edge_node(#[trigger] e[k]))) && (w.depth)(edge_node(e[k]).idx()) > d
+}
+
+pub proof fn lemma_steps_concat<T>(s: Seq<Node<T>>, a: Seq<NodeEdge>, b: Seq<NodeEdge>)
+    // @props C09
+    requires
+        steps_ok(s, a),
+        steps_ok(s, b),
+        a.len() > 0 && b.len() > 0 ==> next_edge(s, a[a.len() - 1]) == Some(b[0]),
+    ensures
+        steps_ok(s, a + b),
+{
+    let e = a + b;
+    assert forall|k: int| 0 <= k < e.len() - 1 implies next_edge(s, #[trigger] e[k]) == Some(e[k + 1]) by {
+        if k < a.len() - 1 {
+            assert(e[k] == a[k] && e[k + 1] == a[k + 1]);
+        } else if k == a.len() - 1 {
+            assert(e[k] == a[k] && e[k + 1] == b[0]);
+        } else {
+            assert(e[k] == b[k - a.len()] && e[k + 1] == b[k + 1 - a.len()]);
+        }
+    }
+}
+
+/// C09: the tour of n starts at Start(n), ends at End(n), every edge is followed by its documented
+/// successor, and every edge strictly inside it belongs to a proper descendant of n
+pub proof fn lemma_tour_node<T>(s: Seq<Node<T>>, w: Ranks, n: NodeId)
+    // @props C09
+    requires
+        links_ok(s),
+        ranked(s, w),
+        tgt_ok(s, Some(n)),
+    ensures
+        ({
+            let e = tour_node(s, w, n);
+            &&& e.len() >= 2 && e[0] == NodeEdge::Start(n) && e[e.len() - 1] == NodeEdge::End(n)
+            &&& steps_ok(s, e)
+            &&& all_below(s, w, e.subrange(1, e.len() - 1), (w.depth)(n.idx()))
+        }),
+    decreases w.bound - (w.depth)(n.idx()), 1int, 0int,
+{
+    reveal(node_ok);
+    let i = n.idx();
+    assert(ranked_at(s, w, i));
+    assert(node_ok(s, i));
+    let l = tour_list(s, w, s[i].first_child, n);
+    let e = tour_node(s, w, n);
+    assert(e =~= seq![NodeEdge::Start(n)] + l + seq![NodeEdge::End(n)]);
+    if s[i].first_child is Some {
+        let c = s[i].first_child->0;
+        assert(node_ok(s, c.idx()));
+        assert(ranked_at(s, w, c.idx()));
+        lemma_id_eq(s[c.idx()].parent->0, n);
+        lemma_tour_list(s, w, c, n);
+        assert(l.len() >= 2);
+        lemma_steps_concat(s, seq![NodeEdge::Start(n)], l);
+        lemma_steps_concat(s, seq![NodeEdge::Start(n)] + l, seq![NodeEdge::End(n)]);
+        assert(e.subrange(1, e.len() - 1) =~= l);
+    } else {
+        assert(l =~= Seq::<NodeEdge>::empty());
+        assert(e =~= seq![NodeEdge::Start(n), NodeEdge::End(n)]);
+        assert(e.subrange(1, e.len() - 1) =~= Seq::<NodeEdge>::empty());
+    }
+}
+
+pub proof fn lemma_tour_list<T>(s: Seq<Node<T>>, w: Ranks, c: NodeId, p: NodeId)
+    // @props C09
+    requires
+        links_ok(s),
+        ranked(s, w),
+        tgt_ok(s, Some(c)),
+        tgt_ok(s, Some(p)),
+        s[c.idx()].parent == Some(p),
+    ensures
+        ({
+            let l = tour_list(s, w, Some(c), p);
+            &&& l.len() >= 2 && l[0] == NodeEdge::Start(c)
+            &&& steps_ok(s, l)
+            &&& next_edge(s, l[l.len() - 1]) == Some(NodeEdge::End(p))
+            &&& all_below(s, w, l, (w.depth)(p.idx()))
+        }),
+    decreases w.bound - (w.depth)(p.idx()), 0int, (w.rem)(c.idx()) + 1,
+{
+    reveal(node_ok);
+    let ci = c.idx();
+    assert(ranked_at(s, w, ci));
+    assert(node_ok(s, ci));
+    lemma_tour_node(s, w, c);
+    let t = tour_node(s, w, c);
+    let nx = s[ci].next_sibling;
+    let d = (w.depth)(p.idx());
+    assert forall|k: int| 0 <= k < t.len() implies tgt_ok(s, Some(edge_node(#[trigger] t[k]))) && (w.depth)(edge_node(t[k]).idx()) > d by {
+        if 0 < k < t.len() - 1 {
+            assert(t.subrange(1, t.len() - 1)[k - 1] == t[k]);
+        }
+    }
+    if nx is Some {
+        let x = nx->0;
+        assert(node_ok(s, x.idx()));
+        assert(ranked_at(s, w, x.idx()));
+        lemma_tour_list(s, w, x, p);
+        let r = tour_list(s, w, nx, p);
+        let l = tour_list(s, w, Some(c), p);
+        assert(l =~= t + r);
+        lemma_steps_concat(s, t, r);
+        assert(l[l.len() - 1] == r[r.len() - 1]);
+        assert forall|k: int| 0 <= k < l.len() implies tgt_ok(s, Some(edge_node(#[trigger] l[k]))) && (w.depth)(edge_node(l[k]).idx()) > d by {
+            if k < t.len() {
+                assert(l[k] == t[k]);
+            } else {
+                assert(l[k] == r[k - t.len()]);
+            }
+        }
+    } else {
+        let l = tour_list(s, w, Some(c), p);
+        assert(l =~= t);
+    }
+}
+
+/// the k-th edge yielded by `node.traverse(arena)`, as determined by the contract of `Traverse::next`
+pub open spec fn nth_edge<T>(s: Seq<Node<T>>, root: NodeId, k: nat) -> Option<NodeEdge>
+    decreases k,
+{
+    if k == 0 {
+        Some(NodeEdge::Start(root))
+    } else {
+        match nth_edge(s, root, (k - 1) as nat) {
+            Some(e) => trav_step(s, root, e),
+            None => None,
+        }
+    }
+}
+
+/// one step of `ReverseTraverse` rooted at `root`
+pub open spec fn rtrav_step<T>(s: Seq<Node<T>>, root: NodeId, e: NodeEdge) -> Option<NodeEdge> {
+    if e == NodeEdge::Start(root) {
+        None
+    } else {
+        prev_edge(s, e)
+    }
+}
+
+pub open spec fn rnth_edge<T>(s: Seq<Node<T>>, root: NodeId, k: nat) -> Option<NodeEdge>
+    decreases k,
+{
+    if k == 0 {
+        Some(NodeEdge::End(root))
+    } else {
+        match rnth_edge(s, root, (k - 1) as nat) {
+            Some(e) => rtrav_step(s, root, e),
+            None => None,
+        }
+    }
+}
+
+pub proof fn lemma_tour_interior<T>(s: Seq<Node<T>>, w: Ranks, root: NodeId, j: int)
+    // @props C09
+    requires
+        links_ok(s),
+        ranked(s, w),
+        tgt_ok(s, Some(root)),
+        0 < j < tour_node(s, w, root).len() - 1,
+    ensures
+        edge_node(tour_node(s, w, root)[j]).idx() != root.idx(),
+        tgt_ok(s, Some(edge_node(tour_node(s, w, root)[j]))),
+{
+    lemma_tour_node(s, w, root);
+    let e = tour_node(s, w, root);
+    assert(e.subrange(1, e.len() - 1)[j - 1] == e[j]);
+}
+
+/// C09: `traverse` yields exactly the depth-first tour of the subtree of its start node and then stops
+pub proof fn lemma_traverse_is_tour<T>(s: Seq<Node<T>>, w: Ranks, root: NodeId, k: nat)
+    // @props C09
+    requires
+        links_ok(s),
+        ranked(s, w),
+        tgt_ok(s, Some(root)),
+    ensures
+        k < tour_node(s, w, root).len() ==> nth_edge(s, root, k) == Some(tour_node(s, w, root)[k as int]),
+        k >= tour_node(s, w, root).len() ==> nth_edge(s, root, k) is None,
+    decreases k,
+{
+    lemma_tour_node(s, w, root);
+    let e = tour_node(s, w, root);
+    if k > 0 {
+        lemma_traverse_is_tour(s, w, root, (k - 1) as nat);
+        if k <= e.len() {
+            let j = k - 1;
+            if 0 < j < e.len() - 1 {
+                lemma_tour_interior(s, w, root, j);
+            }
+            if j < e.len() - 1 {
+                assert(e[j] != NodeEdge::End(root));
+                assert(next_edge(s, e[j]) == Some(e[j + 1]));
+            }
+        }
+    }
+}
+
+/// C09: `reverse_traverse` is the exact reversal of `traverse`
+pub proof fn lemma_reverse_traverse_is_reversed_tour<T>(s: Seq<Node<T>>, w: Ranks, root: NodeId, k: nat)
+    // @props C09
+    requires
+        links_ok(s),
+        ranked(s, w),
+        tgt_ok(s, Some(root)),
+    ensures
+        k < tour_node(s, w, root).len() ==> rnth_edge(s, root, k) == Some(tour_node(s, w, root)[tour_node(s, w, root).len() - 1 - k]),
+        k >= tour_node(s, w, root).len() ==> rnth_edge(s, root, k) is None,
+    decreases k,
+{
+    lemma_tour_node(s, w, root);
+    let e = tour_node(s, w, root);
+    let n = e.len();
+    if k > 0 {
+        lemma_reverse_traverse_is_reversed_tour(s, w, root, (k - 1) as nat);
+        if k <= n {
+            let j = n - k;  // index of the previous element e[j], we step to e[j - 1]
+            if j > 0 {
+                if j < n - 1 {
+                    lemma_tour_interior(s, w, root, j);
+                }
+                assert(e[j] != NodeEdge::Start(root));
+                // e[j-1] -> e[j] is a documented step, so prev_edge undoes it
+                assert(next_edge(s, e[j - 1]) == Some(e[j]));
+                if j - 1 > 0 {
+                    lemma_tour_interior(s, w, root, j - 1);
+                }
+                lemma_edge_inverse(s, e[j - 1]);
+            }
+        }
+    }
+}
+
+pub proof fn lemma_in_sub_trans<T>(s: Seq<Node<T>>, w: Ranks, a: int, b: int, y: int)
+    // @props C09
+    requires
+        in_sub(s, w, a, b),
+        in_sub(s, w, b, y),
+    ensures
+        in_sub(s, w, a, y),
+    decreases (w.depth)(y),
+{
+    if y != b && y != a {
+        lemma_in_sub_trans(s, w, a, b, s[y].parent->0.idx());
+    }
+}
+
+pub open spec fn all_inside<T>(s: Seq<Node<T>>, w: Ranks, e: Seq<NodeEdge>, a: int) -> bool {
+    forall|k: int| 0 <= k < e.len() ==> in_sub(s, w, a, edge_node(#[trigger] e[k]).idx())
+}
+
+/// C09: the tour of n never leaves the subtree of n
+pub proof fn lemma_tour_confined<T>(s: Seq<Node<T>>, w: Ranks, n: NodeId)
+    // @props C09
+    requires
+        links_ok(s),
+        ranked(s, w),
+        tgt_ok(s, Some(n)),
+    ensures
+        all_inside(s, w, tour_node(s, w, n), n.idx()),
+    decreases w.bound - (w.depth)(n.idx()), 1int, 0int,
+{
+    reveal(node_ok);
+    let i = n.idx();
+    assert(ranked_at(s, w, i));
+    assert(node_ok(s, i));
+    let l = tour_list(s, w, s[i].first_child, n);
+    let e = tour_node(s, w, n);
+    assert(e =~= seq![NodeEdge::Start(n)] + l + seq![NodeEdge::End(n)]);
+    assert(in_sub(s, w, i, i));
+    if s[i].first_child is Some {
+        let c = s[i].first_child->0;
+        assert(node_ok(s, c.idx()));
+        assert(ranked_at(s, w, c.idx()));
+        lemma_id_eq(s[c.idx()].parent->0, n);
+        lemma_tour_confined_list(s, w, c, n);
+    } else {
+        assert(l =~= Seq::<NodeEdge>::empty());
+    }
+    assert forall|k: int| 0 <= k < e.len() implies in_sub(s, w, i, edge_node(#[trigger] e[k]).idx()) by {
+        if 0 < k < e.len() - 1 {
+            assert(e[k] == l[k - 1]);
+        }
+    }
+}
+
+pub proof fn lemma_tour_confined_list<T>(s: Seq<Node<T>>, w: Ranks, c: NodeId, p: NodeId)
+    // @props C09
+    requires
+        links_ok(s),
+        ranked(s, w),
+        tgt_ok(s, Some(c)),
+        tgt_ok(s, Some(p)),
+        s[c.idx()].parent == Some(p),
+    ensures
+        all_inside(s, w, tour_list(s, w, Some(c), p), p.idx()),
+    decreases w.bound - (w.depth)(p.idx()), 0int, (w.rem)(c.idx()) + 1,
+{
+    reveal(node_ok);
+    let ci = c.idx();
+    assert(ranked_at(s, w, ci));
+    assert(node_ok(s, ci));
+    lemma_tour_confined(s, w, c);
+    let t = tour_node(s, w, c);
+    let nx = s[ci].next_sibling;
+    assert(in_sub(s, w, p.idx(), p.idx()));
+    assert(in_sub(s, w, p.idx(), ci));
+    assert forall|k: int| 0 <= k < t.len() implies in_sub(s, w, p.idx(), edge_node(#[trigger] t[k]).idx()) by {
+        lemma_in_sub_trans(s, w, p.idx(), ci, edge_node(t[k]).idx());
+    }
+    let l = tour_list(s, w, Some(c), p);
+    if nx is Some {
+        let x = nx->0;
+        assert(node_ok(s, x.idx()));
+        assert(ranked_at(s, w, x.idx()));
+        lemma_tour_confined_list(s, w, x, p);
+        let r = tour_list(s, w, nx, p);
+        assert(l =~= t + r);
+        assert forall|k: int| 0 <= k < l.len() implies in_sub(s, w, p.idx(), edge_node(#[trigger] l[k]).idx()) by {
+            if k < t.len() {
+                assert(l[k] == t[k]);
+            } else {
+                assert(l[k] == r[k - t.len()]);
+            }
+        }
+    } else {
+        assert(l =~= t);
+    }
 }
 
